@@ -3,7 +3,7 @@
 (patch.diff, demo files, meta.json extended with what was run and what the checks reported)."""
 import json, os, shutil, sys, glob
 ID, slug = sys.argv[1], sys.argv[2]
-src = "/tmp/mut/" + ID
+src = os.environ.get("MUT", "/tmp/mut") + "/" + ID
 dst = os.path.join(os.path.dirname(os.path.dirname(os.path.abspath(__file__))), "seeded", "%s-%s" % (ID, slug))
 os.makedirs(dst + "/demo", exist_ok=True)
 shutil.copy(src + "/patch.diff", dst + "/patch.diff")
